@@ -757,8 +757,8 @@ class Gen:
             mk = lambda i, pad: {"time": T0 + i * SEC, "meas": "m1", "tags": {"p": "x" * pad}, "fields": {}}
             short = r.choice([3, 4, 7])
             ops += [("insert", [mk(0, 9), mk(1, 32 + 2 * short), mk(2, 9)], None, "multiple"), ("len",), ("index_valid",),
-                    ("remove", ("S", "time", [], ("cmp", "==", ("t", T0 + 1 * SEC))), None), ("len",), ("insert", [mk(3, short)], None), ("len",), ("insert", [mk(4, short)], None), ("len",),
-                    ("handle", "m1", ("len",)), ("get_timestamps", None)]
+                    ("remove", ("S", "time", [], ("cmp", "==", ("t", T0 + 1 * SEC))), None)] + ([("len",)] if r.random() < 0.3 else []) + [("insert", [mk(3, short)], None),
+                    ("insert", [mk(4, short)], None), ("len",), ("handle", "m1", ("len",)), ("get_timestamps", None)]
         elif k == "shared_maps":
             # a batch of points built from ONE tags mapping and ONE fields mapping (the harness hands equal mappings of a batch over as one
             # object): updates of a subset, of all, unsets, and an update that fails part-way must treat every point as having its own
